@@ -305,6 +305,10 @@ def _wrap_handle(server, driver: Driver):
             used = S.steps - S.op_start_steps
             driver.op_steps[k] = used
             ev("handled", k, used)
+            if len(driver.handled) % 40 == 0:
+                import gc
+
+                gc.collect()
             S.sim -= 1
 
     server.handle = handle
@@ -315,6 +319,14 @@ def run_schedule(sched: dict, fallback_base: str, repo: str, result_cb) -> None:
     S.sim = 1
     S.harness_error = None
     S.budget = sched.get("budget", sim.STEP_BUDGET_DEFAULT)
+    # The cyclic collector's timing depends on the allocation history this process inherited
+    # from the worker interpreter, and a collection can run Python-level finalisers (extra
+    # steps at arbitrary points). It is switched off; the simulator collects explicitly, at
+    # fixed points of the schedule and with the step clock stopped.
+    import gc
+
+    gc.collect()
+    gc.disable()
     ctx = {}
 
     def finish(status: str):
@@ -453,6 +465,8 @@ def _collect(ctx: dict, sched: dict, status: str) -> dict:
         classes=oracles.response_classes(driver),
         expanded=driver.expanded,
     )
+    if sim._HIST is not None:
+        res["step_hist"] = sorted([list(k) + [v] for k, v in sim._HIST.items()])
     if sched.get("want_transcript"):
         res["transcript"] = oracles.transcript(driver, sched.get("transcript_from"))
     if sched.get("want_effects"):
